@@ -574,7 +574,24 @@ impl Database {
                 Ok(current) => match current.checked_add(inc) {
                     Some(next) => {
                         let next = next.to_string();
-                        db.insert(key.clone(), Value::from(next.clone()));
+                        // Keep what is known about an existing key (disk addresses, dirty
+                        // state) and move its version forward instead of starting over
+                        let new_value = match db.get(&key) {
+                            Some(old_value) => Value {
+                                value: next.clone(),
+                                version: if old_value.is_in_conflict_resolution() {
+                                    old_value.version
+                                } else {
+                                    old_value.version.saturating_add(1)
+                                },
+                                opp_id: Databases::next_op_log_id(),
+                                state: old_value.get_update_value_sate(),
+                                value_disk_addr: old_value.value_disk_addr,
+                                key_disk_addr: old_value.key_disk_addr,
+                            },
+                            None => Value::from(next.clone()),
+                        };
+                        db.insert(key.clone(), new_value);
                         (next, -1)
                     }
                     None => {
